@@ -416,14 +416,19 @@ def table_to_value(rng, schema, t, form=None):
         return rng.choice([None, pd.NA])
     form = form or rng.choice(["dict", "df_arrow", "df_arrow", "dict_arrow"])
     LAST_FORM[0] = form
+    # a table is a table whatever the order of its columns: now and then offered in another order than the fields of the column
+    order = list(zip(schema, t.values()))
+    if len(order) > 1 and rng.random() < 0.5:
+        k = rng.randint(1, len(order) - 1)
+        order = order[k:] + order[:k]          # never the identity
     if form == "dict":
-        return {k: list(v) for k, v in t.items()}
+        return {k: list(v) for (k, _), v in order}
     if form == "dict_arrow":
-        return {k: pa.array(v, type=gen.TYPES[ty]) for (k, ty), v in zip(schema, t.values())}
+        return {k: pa.array(v, type=gen.TYPES[ty]) for (k, ty), v in order}
     lens = {len(v) for v in t.values()}
     if len(lens) > 1:
         return {k: list(v) for k, v in t.items()}  # a ragged DataFrame cannot exist
-    return pd.DataFrame({k: pd.array(v, dtype=pd.ArrowDtype(gen.TYPES[ty])) for (k, ty), v in zip(schema, t.values())})
+    return pd.DataFrame({k: pd.array(v, dtype=pd.ArrowDtype(gen.TYPES[ty])) for (k, ty), v in order})
 
 
 def table_to_lrow(schema, t):
@@ -833,12 +838,38 @@ def op_set_lists(rng, inp, via="array", malformed=False):
         return out.array
 
     res = attempt(run)
+    # the same assignment with NO list (None) offered for the rows that hold no element: a present empty row stays a present empty
+    # row, a missing row stays missing, every other field and the flat content are what the assignment with [] gives
+    none_note, none_ok = "", True
+    rows_now = inp["rows"]
+    if not malformed and res[0] == "ok" and any(k == 0 for k in lens):
+        lists2 = [None if (k == 0 and rng.random() < 0.8) else l for k, l in zip(lens, lists)]
+        value2 = pa.array(lists2, type=lt)
+
+        def run2():
+            if via == "array":
+                a2 = arr.copy()
+                a2.set_list_field(name, value2, keep_dtype=keep)
+                return a2
+            return pd.Series(arr, name="n", index=range(len(arr))).nest.with_list_field(name, value2).array
+        r2 = attempt(run2)
+
+        def obs(a):
+            s_ = pd.Series(a)
+            fl = s_.nest.to_flat()
+            return repr(([bool(x) for x in a.isna()], [int(x) for x in a.list_lengths], list(a.field_names),
+                         {c: fl[c].array._pa_array.to_pylist() for c in fl.columns}, list(fl.index),
+                         [None if (t is None or t is pd.NA) else len(t) for t in a]))
+        if r2[0] != "ok":
+            none_ok, none_note = False, f"None offered for element-free rows was refused: {r2[1]}"
+        elif obs(r2[1]) != obs(res[1]):
+            none_ok, none_note = False, f"None offered for element-free rows gives {obs(r2[1])[:300]} instead of {obs(res[1])[:300]}"
     return col_case(inp, "set_list_field" if via == "array" else via,
                     f"m_set_list_field P {cq_str(name)} {ety} {mval} {cq_bool(keep)}",
                     f"spec_col_set_lists L {cq_str(name)} {ety} {cq_list(cq_vals(l) for l in lists)} {cq_bool(keep)}", res,
                     {"field": name, "type": ty, "existing": existing, "keep_dtype": keep, "form": form,
-                     "lists": [[repr(x) for x in l] for l in lists]},
-                    trivial=sum(lens) == 0)
+                     "lists": [[repr(x) for x in l] for l in lists], **({"none_lists": none_note} if none_note else {})},
+                    trivial=sum(lens) == 0, py_agree=none_ok)
 
 
 def op_fill(rng, inp, via="array", malformed=False):
